@@ -306,12 +306,18 @@ def gen_case(rng, nested):
         'n_models': rng.choice([1, 1, 2]),
         'queued': rng.random() < 0.25,
         'locked': rng.random() < 0.15,
+        'async': False,
         'model_attr': 'custom' if rng.random() < 0.35 else 'default',
         'own_state': rng.random() < 0.5,       # with a custom attribute: the model carries an unrelated `state`
         'retrig': {},
         'ops': [],
     }
-    if not case['enum'] and rng.random() < 0.4:
+    if rng.random() < 0.14:
+        # AsyncGraphMachine / HierarchicalAsyncGraphMachine; callbacks stay plain functions, events are awaited one at a
+        # time, no callbacks that fire events or change the machine (C07/C08 cover async re-entrancy)
+        case['async'] = True
+        case['locked'] = False
+    if not case['enum'] and not case['async'] and rng.random() < 0.4:
         # callbacks that fire a further event on the same model: on_enter of states, `after` of transitions
         # (on_exit is left out: an event fired while the source is being left makes the engine itself move the
         # model twice, see Props/C16.lean `Settled`)
@@ -329,7 +335,7 @@ def gen_case(rng, nested):
             else:
                 rng.choice(case['transitions'])['after'] = [cb]
     case['modcb'] = None
-    if not case['enum'] and rng.random() < 0.1:
+    if not case['enum'] and not case['async'] and rng.random() < 0.1:
         # a state callback that adds a transition to the machine while a state change is in progress
         pool = []
 
@@ -378,6 +384,10 @@ def gen_case(rng, nested):
         if not active:
             continue
         mi = rng.choice(active)
+        if not case['enum'] and not case['async'] and rng.random() < 0.03:
+            # a second machine built from this machine's markup, extended, and exported
+            case['ops'].append(['clone_markup', rng.choice(cur_tops)])
+            continue
         if rng.random() < 0.12:
             name = rng.choice(['show_auto', 'show_auto', 'show_conditions', 'show_attrs', 'title'])
             case['ops'].append(['set_option', name, rng.choice(['T1', 'T2']) if name == 'title' else rng.random() < 0.6])
@@ -427,6 +437,23 @@ def gen_case(rng, nested):
                 if dest == '=':
                     dest = src
                 case['ops'].append(['remove_transition', t['trigger'], src, '*' if dest is None else dest])
+    if case['async']:
+        # AsyncTransition does not accept the `label` keyword of TransitionGraphSupport: no edge labels there
+        def strip(ts):
+            for t in ts:
+                t['label'] = None
+
+        def walk(sts):
+            for st in sts:
+                strip(st['transitions'])
+                walk(st['children'])
+        strip(case['transitions'])
+        walk(case['states'])
+        for op in case['ops']:
+            if op[0] == 'add_transition':
+                op[1]['label'] = None
+            elif op[0] == 'add_states':
+                walk([it for it in op[1] if 'join' not in it])
     return case
 
 
@@ -446,13 +473,17 @@ def flatten_state(state):
 _CLS_CACHE = {}
 
 
-def machine_class(nested, locked=False):
-    if (nested, locked) in _CLS_CACHE:
-        return _CLS_CACHE[(nested, locked)]
+def machine_class(nested, locked=False, is_async=False):
+    if (nested, locked, is_async) in _CLS_CACHE:
+        return _CLS_CACHE[(nested, locked, is_async)]
     from transitions.extensions import (GraphMachine, HierarchicalGraphMachine, LockedGraphMachine,
-                                        LockedHierarchicalGraphMachine)
-    base = ((LockedHierarchicalGraphMachine if locked else HierarchicalGraphMachine) if nested
-            else (LockedGraphMachine if locked else GraphMachine))
+                                        LockedHierarchicalGraphMachine, AsyncGraphMachine,
+                                        HierarchicalAsyncGraphMachine)
+    if is_async:
+        base = HierarchicalAsyncGraphMachine if nested else AsyncGraphMachine
+    else:
+        base = ((LockedHierarchicalGraphMachine if locked else HierarchicalGraphMachine) if nested
+                else (LockedGraphMachine if locked else GraphMachine))
 
     class LabelState(base.state_cls):
         def __init__(self, *args, **kwargs):
@@ -462,7 +493,7 @@ def machine_class(nested, locked=False):
     class LabelMachine(base):
         state_cls = LabelState
 
-    _CLS_CACHE[(nested, locked)] = LabelMachine
+    _CLS_CACHE[(nested, locked, is_async)] = LabelMachine
     return LabelMachine
 
 
@@ -534,6 +565,7 @@ class Run(object):
         if case.get('modcb'):
             body[MODCB] = lambda self, *a, **k: run._modify()
         self.model_cls = type('Model', (object,), body)
+        globals()['Model'] = self.model_cls      # importable by name: MarkupMachine re-creates models from the markup
         self.models = []
         self.stack = {}
         self.budget = 0
@@ -544,9 +576,12 @@ class Run(object):
         self.wiped = {i: False for i in range(len(self.models))}       # graph regenerated since the last state change
         self.regen_mid = {i: False for i in range(len(self.models))}   # ... while a state change was in progress
         self.mod_used = False
+        self.cloned = False       # a machine was built from this machine's markup and extended (open finding)
         self.removed = set()      # indices of models detached from the machine (slot None once the object is dropped)
         self.recycled = 0
-        cls = machine_class(self.nested, bool(case.get('locked')))
+        self.is_async = bool(case.get('async'))
+        self.loop = None
+        cls = machine_class(self.nested, bool(case.get('locked')) and not self.is_async, self.is_async)
         self.opts = dict(case['opts'])          # current display options (may be set later through the machine)
         o = case['opts']
         kw = dict(model=self.models, transitions=[trans_arg(t) for t in case['transitions']],
@@ -633,6 +668,16 @@ class Run(object):
             self.budget -= 1
             model.trigger(ev)
 
+    def shares_markup(self):
+        """the open finding's structural condition: a machine built from this machine's markup holds the very same
+        dict (and has rewritten it with its own content)"""
+        return bool(self.cloned and getattr(self.clone, '_markup', None) is self.machine._markup)
+
+    def close(self):
+        if self.loop is not None:
+            self.loop.close()
+            self.loop = None
+
     def regen_all(self):
         for i, m in enumerate(self.models):
             if i in self.removed:        # the machine regenerates the graphs of its registered models only
@@ -658,7 +703,23 @@ class Run(object):
                 ev = op[2]
                 if ev.startswith('to_') and self.attr != 'state':
                     ev = 'to_%s_%s' % (self.attr, ev[3:])
-                self.models[op[1]].trigger(ev)
+                if self.is_async:
+                    # asynchronous graph classes: events are awaited one at a time
+                    import asyncio
+                    if self.loop is None:
+                        self.loop = asyncio.new_event_loop()
+                    res = self.models[op[1]].trigger(ev)      # an unknown event name is refused synchronously
+                    if hasattr(res, '__await__'):
+                        self.loop.run_until_complete(res)
+                else:
+                    self.models[op[1]].trigger(ev)
+            elif kind == 'clone_markup':
+                clone = type(self.machine)(markup=self.machine.markup, graph_engine='mermaid')
+                clone.add_states('s98')
+                clone.add_transition('e9', op[1], 's98')
+                _ = clone.markup                  # e.g. to export the extended machine
+                self.cloned = True
+                self.clone = clone
             elif kind == 'set_option':
                 # display options are plain / documented attributes of the machine; nothing regenerates the graphs
                 name, value = op[1], op[2]
@@ -936,10 +997,17 @@ def expected_labels(rows, show_conditions):
     return {k: sorted(v) for k, v in out.items()}
 
 
+SIG_CLONE = 'C16.markup.shared-with-machine-built-from-it'
+
+
 def oracle_full(run, mi, d):
     """clauses on the full diagram `d` (Parsed) of model `mi`; returns [(what, details, signature)]"""
     fails = []
     idx = desc_index(run.states)
+    if run.shares_markup() and any(n.name == (98,) for n, _ in d.all) and (98,) not in idx:
+        # open finding: MarkupMachine(markup=other.markup) keeps the other machine's dict; the state added to the
+        # second machine shows up here. Nothing else can be judged on this diagram.
+        return [('foreign-state', {'state': 's98'}, SIG_CLONE)]
     # -- every state declared exactly once, children inside their parents, regions separated
     declared = [n.name for n, _ in d.all]
     if sorted(declared) != sorted(idx):
